@@ -16,7 +16,7 @@ from ..core.fde import IndexOutOfRange, Obj, Raised, Tag, Undecided
 from ..core.findings import Report
 from ..core.loader import AnalysisError, Repo
 from . import c03
-from .solverworld import solver_self, solver_world
+from .solverworld import backend_package, solver_self, solver_world
 from .graphnative import GRAPH, GraphWorld
 
 CONF = "cspuz/configuration.py"
@@ -33,11 +33,13 @@ def conf_world(repo: Repo, environ: Dict[str, str], available: set, broken: set 
     raises ImportError (missing shared library, wrong ABI): present but not importable"""
     cw = ClassWorld([repo.mod(CONF)])
 
-    def imp(name: str, env: Dict[str, Any]) -> None:
+    def imp(name: str, env: Any = None, *rest: Any) -> Any:
+        # both the `import x` statement hook and a direct `__import__("x")` call end here
         if name in ("os", "typing", "importlib", "importlib.util"):
-            return
+            return Tag(name)
         if name not in available:
             raise Raised(f"ImportError({name})")
+        return Tag(name)
 
     def find_spec(name: Any, package: Any = None) -> Any:
         if not isinstance(name, str):
@@ -269,9 +271,7 @@ def check_dispatch(repo: Repo, rep: Report) -> None:
                                solve_irrefutably=lambda k: False, name=clsname)
                 return ctor
 
-            for _n, (cls, _e) in c03.ENTRY.items():
-                modname = "z3" if cls == "Z3Backend" else "sugar_like"
-                genv[f"backend.{modname}.{cls}"] = mk(cls)
+            genv["backend"] = backend_package(mk)
             selfo = solver_self(cw, variables=[], constraints=[], is_answer_key=[], name="self")
             try:
                 ev.steps = 0
@@ -283,9 +283,7 @@ def check_dispatch(repo: Repo, rep: Report) -> None:
                                 f"{meth}(backend={arg!r}) with config.default_backend={conf!r} instantiates {used}, expected [{want}]", fn.lineno)
             except (Undecided, Raised) as ex:
                 rep.undecide("CFG-1", f"{meth}: {ex}")
-        for _n, (cls, _e) in c03.ENTRY.items():
-            modname = "z3" if cls == "Z3Backend" else "sugar_like"
-            genv.pop(f"backend.{modname}.{cls}", None)
+        genv["backend"] = backend_package()
 
 
 def check_gating(repo: Repo, rep: Report) -> None:
